@@ -71,7 +71,7 @@ PROPS = {
     "C06": dict(
         title="RawLRU recency order",
         modules=["Caches.Properties.C06"],
-        suites=[s("rawlru", 250, 8000), s("rawfrom", 20, 300, 8)] + [huge("rawlru"), bigctor("rawlru")],
+        suites=[s("rawlru", 250, 8000), s("rawfrom", 20, 300, 8)] + [huge("rawlru"), bigctor("rawlru"), s("rawlru", 1, 12, 700, big=1)],
         fields={"result", "state", "panic"},
         monitor="C06",
         design="6/C06",
